@@ -331,6 +331,11 @@ func genYMD(r *Rand) (int, int, int) {
 			return ft.Year(), int(ft.Month()), ft.Day()
 		}
 	}
+	if r.Intn(10) == 0 { // leap days (century years included) and the days around them
+		y := []int{2000, 2004, 2024, 1972, 2068, 2400, 1600, 2096, 4, 9996}[r.Intn(10)]
+		md := [][2]int{{2, 29}, {2, 29}, {2, 28}, {3, 1}}[r.Intn(4)]
+		return y, md[0], md[1]
+	}
 	y := yearPool[r.Intn(len(yearPool))]
 	if r.Intn(2) == 0 {
 		y = 1 + r.Intn(9999)
@@ -482,8 +487,11 @@ func genLeaf(r *Rand, v reflect.Value, f LField, mode int) {
 			y = []int{1969, 1999, 2000, 2068}[r.Intn(4)]
 		}
 		_, m, d := genYMD(r)
-		if d > 28 {
-			d = 28
+		if last := civilDate(y, m+1, 0).Day(); d > last {
+			d = last
+		}
+		if r.Intn(8) == 0 { // leap days of the two-digit-year window, 2000-02-29 among them
+			y, m, d = []int{2000, 2000, 1972, 2024, 2068, 1996}[r.Intn(6)], 2, 29
 		}
 		t := civilDate(y, m, d)
 		if edge {
